@@ -463,6 +463,7 @@ type pcase struct {
 	W      int      `json:"w"`
 	H      int      `json:"h"`
 	Scroll []int    `json:"scroll,omitempty"` // +1 down, -1 up
+	W2     int      `json:"w2,omitempty"`     // width of a final draw after the scrolling (0 = none)
 }
 
 // idealRows wraps the text at width w: a logical line becomes chunks whose
@@ -544,18 +545,20 @@ func runPager(w *harness.W, sess *vxh.Session, c pcase, sample bool) {
 		m.Segments = append(m.Segments, vaxis.Segment{Text: s, Style: st})
 		text += s
 	}
+	width := c.W
+	cur := m
 	draw := func(h int) ([]string, bool) {
-		win := sess.Vx.Window().New(1, 0, c.W, h)
+		win := sess.Vx.Window().New(1, 0, width, h)
 		val, stack, panicked := harness.Recover(func() {
 			sess.Vx.Window().Clear()
-			m.Draw(win)
+			cur.Draw(win)
 		})
 		if panicked {
 			w.ViolationStack("panic:"+harness.PanicKey(val, stack), fmt.Sprintf("pager.Draw panicked at %dx%d with text %q: %s", c.W, h, text, val), c, val, "no panic", stack)
 			return nil, false
 		}
 		sess.Vx.Render()
-		rows, _ := rowsOf(sess, 1, 0, c.W, h)
+		rows, _ := rowsOf(sess, 1, 0, width, h)
 		return rows, true
 	}
 	// everything at once
@@ -625,6 +628,45 @@ func runPager(w *harness.W, sess *vxh.Session, c pcase, sample bool) {
 				if rows[r] != exp {
 					w.Violation("pager:scrolled-rows", fmt.Sprintf("offset %d: row %d shows %q, line %d of the layout is %q", m.Offset, r, rows[r], m.Offset+r, exp), c, rows[r], exp)
 					return
+				}
+			}
+		}
+		// the window changes its width while the pager is scrolled
+		if c.W2 > 0 && c.W2 != c.W {
+			width = c.W2
+			fresh := &pager.Model{Segments: m.Segments}
+			cur = fresh
+			allNew, ok := draw(sess.Term.Rows)
+			if !ok {
+				return
+			}
+			cur = m
+			rows, ok := draw(c.H)
+			if !ok {
+				return
+			}
+			want2 := idealRows(text, c.W2)
+			maxLines := len(want2)
+			for _, r := range want2 {
+				if rowWidth(r) == c.W2 {
+					maxLines++
+				}
+			}
+			w.Count("pager_width_changes_while_scrolled", 1)
+			if maxLines <= sess.Term.Rows {
+				if m.Offset < 0 || (m.Offset > 0 && m.Offset+c.H > maxLines) {
+					w.Violation("pager:offset-not-clamped:after-width-change", fmt.Sprintf("scrolled to offset %d at width %d, then drawn at width %d: offset %d with at most %d lines in a viewport of %d", m.Offset, c.W, c.W2, m.Offset, maxLines, c.H), c, fmt.Sprint(m.Offset), "0 <= offset <= lines - height")
+					return
+				}
+				for r := 0; r < c.H && r < len(rows); r++ {
+					exp := ""
+					if m.Offset+r < len(allNew) {
+						exp = allNew[m.Offset+r]
+					}
+					if rows[r] != exp {
+						w.Violation("pager:scrolled-rows:after-width-change", fmt.Sprintf("width %d -> %d, offset %d: row %d shows %q, line %d of the layout is %q", c.W, c.W2, m.Offset, r, rows[r], m.Offset+r, exp), c, rows[r], exp)
+						return
+					}
 				}
 			}
 		}
@@ -709,6 +751,9 @@ func (c check) Run(w *harness.W, b harness.Batch) {
 				}
 				for n := r.Intn(30); n > 0; n-- {
 					pc.Scroll = append(pc.Scroll, []int{1, 1, -1}[r.Intn(3)])
+				}
+				if r.Intn(2) == 0 {
+					pc.W2 = 2 + r.Intn(20)
 				}
 				runPager(w, sess, pc, i == 0)
 			}
